@@ -242,11 +242,19 @@ class Build(object):
         if "f" in self.drivers:
             ff = [f for f in files if f.endswith(".f")]
             good = ok_lib
-            for f in ff:
-                p = self.sh(["gfortran"] + FFLAGS + ["-c", f, "-o", f[:-2] + ".o"], timeout=600)
-                if p.returncode != 0:
-                    errs[f] = p.stderr[-1200:]
-                    good = False
+            pending = list(ff)
+            for _pass in range(3):
+                failed = []
+                for f in pending:
+                    p = self.sh(["gfortran"] + FFLAGS + ["-c", f, "-o", f[:-2] + ".o"], timeout=600)
+                    if p.returncode != 0:
+                        failed.append((f, p.stderr[-1200:]))
+                if not failed or len(failed) == len(pending):
+                    break
+                pending = [f for f, _ in failed]
+            for f, e in failed:
+                errs[f] = e
+                good = False
             if good:
                 p = self.sh(["gfortran"] + FFLAGS + ["-c", "drv_f.f90", "-o", "drv_f.o"], timeout=600)
                 if p.returncode != 0:
